@@ -84,6 +84,34 @@ def api_text(case, path):
     return gotran2py.get_code(ode, format=PF(e["format"]), backend=gotran2py.Backend(e["backend"]), **kw)
 
 
+def scheme_texts(case, path):
+    """Every requested scheme generated directly from the code generator with the effective delta / stiff states
+    (independent of the helper that the CLI and get_code share): each must appear verbatim in the written file."""
+    from . import gx  # noqa: F401
+    from gotranx.load import load_ode
+    from gotranx.codegen.python import PythonCodeGenerator, Format as PF
+    from gotranx.codegen.jax import JaxCodeGenerator
+    from gotranx.codegen.c import CCodeGenerator, Format as CF
+    from gotranx.schemes import get_scheme
+    e = case["eff"]
+    ode = load_ode(path)
+    if e["suffix"] in (".c", ".h"):
+        cg = CCodeGenerator(ode, format=CF.none, remove_unused=e["remove_unused"])
+    elif e["backend"] == "jax":
+        cg = JaxCodeGenerator(ode, format=PF.none, remove_unused=e["remove_unused"])
+    else:
+        cg = PythonCodeGenerator(ode, format=PF.none, remove_unused=e["remove_unused"])
+    out = {}
+    for s in e["scheme"]:
+        kw = {}
+        if "rush_larsen" in s:
+            kw["delta"] = float(e["delta"])
+        if s == "hybrid_rush_larsen":
+            kw["stiff_states"] = list(e["stiff"])
+        out[s] = cg.scheme(get_scheme(s), **kw)
+    return out
+
+
 def run_case(case):
     import warnings
     from . import gx  # noqa: F401
@@ -125,6 +153,11 @@ def run_case(case):
             try:
                 want = api_text(case, d / "model.ode")
                 got = (d / new[0]).read_text()
+                if case["eff"]["format"] == "none":
+                    for sname, stext in scheme_texts(case, d / "model.ode").items():
+                        if stext.strip() not in got:
+                            out["problems"].append({"kind": "scheme-options-not-honoured", "scheme": sname,
+                                                    "delta": case["eff"]["delta"], "stiff": case["eff"]["stiff"]})
                 if got != want:
                     import difflib
                     diff = "\n".join(list(difflib.unified_diff(want.splitlines(), got.splitlines(), "api", "cli", lineterm=""))[:12])
